@@ -67,11 +67,11 @@ class SearchLoop:
                     ve = ve.func.value
                 if isinstance(ve, ast.BinOp) and isinstance(ve.op, ast.Add):
                     for a, b in ((ve.left, ve.right), (ve.right, ve.left)):
-                        ar = _find_arange(a)
+                        ar = _find_arange(a) or _find_arange(self._deep().expand(a))
                         if ar is not None and isinstance(b, ast.Name):
                             ks = {self.index_kind(x, depth + 1)[0] for x in defs_of(b)}
                             if ks == {"local"}:
-                                return "flat", ar
+                                return "flat", a
                             return "unknown", None
         if d.kind == "assign" and isinstance(v, ast.Call) and call_name(v) == "torch.cat" and v.args \
                 and isinstance(v.args[0], (ast.List, ast.Tuple)) and v.args[0].elts:
@@ -82,6 +82,12 @@ class SearchLoop:
                     return ks.pop(), None
         return "unknown", None
 
+    def _deep(self):
+        if not hasattr(self, "_inl_deep"):
+            from sa.inline import Inliner
+            self._inl_deep = Inliner(self.f.node, self.rd)
+        return self._inl_deep
+
     def use_kinds(self, e: ast.AST) -> Tuple[Set[str], List[ast.AST]]:
         """Index-space kinds of the source-index names inside expression e."""
         kinds, strides = set(), []
@@ -91,11 +97,11 @@ class SearchLoop:
             ve = ve.func.value
         if isinstance(ve, ast.BinOp) and isinstance(ve.op, ast.Add):
             for a, b in ((ve.left, ve.right), (ve.right, ve.left)):
-                ar = _find_arange(a)
+                ar = _find_arange(a) or _find_arange(self._deep().expand(a))
                 if ar is not None and isinstance(b, ast.Name):
                     ks = {self.index_kind(x)[0] for x in self.rd.defs_of(b)}
                     if ks == {"local"}:
-                        return {"flat"}, [ar]
+                        return {"flat"}, [a]
         for n in ast.walk(e):
             if isinstance(n, ast.Name) and isinstance(n.ctx, ast.Load):
                 for d in self.rd.defs_of(n):
@@ -145,26 +151,13 @@ def check_index_spaces(col, sl: SearchLoop, rel: str, clause: str, reshape_width
     return n_g, n_e
 
 
-def _stride_ok(ar: ast.Call, sl: SearchLoop, reshape_width_of: str):
-    if len(ar.args) != 3:
-        return False, "is not arange(0, width*N, width)"
-    start, stop, step = ar.args
-    nz = Normalizer()
-    if pstr(nz.poly(start)) != "0":
-        return False, "does not start at 0"
-    # stop == step * N for some batch-size name
-    w = nz.poly(step)
-    okstop = False
-    for n in ast.walk(stop):
-        # (the batch size by name, or read off a tensor: `next_src.shape[0]`)
-        if isinstance(n, (ast.Name, ast.Subscript, ast.Call, ast.Attribute)) and n is not stop:
-            try:
-                if not padd(nz.poly(stop), pmul(w, nz.poly(n)), -1):
-                    okstop = True
-            except Exception:
-                continue
-    if not okstop:
-        return False, f"stops at `{u(stop)}` which is not stride * batch size"
+def _stride_ok(off: ast.AST, sl: SearchLoop, reshape_width_of: str):
+    """The batch offset added to the beam-local source index, by value: with N = 3 batch elements and the step's width W = 4 it must be
+    (0, 4, 8) - `arange(0, W * N, W)`, `arange(N) * W`, a named vector ... The width is the one the step's extension scores were
+    shaped with (another width variable gets another value here, so using it shows)."""
+    import numpy as np
+    from sa.inteval import NotEvaluable
+    from sa.teval import teval
     # the width the extension scores were shaped with
     widths = set()
     for c in own_calls(sl.f.node):
@@ -177,8 +170,31 @@ def _stride_ok(ar: ast.Call, sl: SearchLoop, reshape_width_of: str):
                 widths.add(u(c.args[1]))
     if not widths:
         return False, f"cannot be compared: no (N, width, V) shaping of {reshape_width_of} found"
-    if widths != {u(step)}:
-        return False, f"uses stride `{u(step)}` but the step's scores are shaped with width {sorted(widths)}"
+    ex = sl._deep().expand(off)
+
+    def leaf(x):
+        t = u(x)
+        if t in widths:
+            return 4
+        if isinstance(x, ast.Attribute) and x.attr in ("device", "dtype"):
+            return "<meta>"
+        if isinstance(x, ast.Subscript) and isinstance(x.value, ast.Attribute) and x.value.attr == "shape":
+            return 3
+        if isinstance(x, ast.Call) and isinstance(x.func, ast.Attribute) and x.func.attr == "size" and len(x.args) == 1:
+            return 3
+        if isinstance(x, ast.Attribute) and t.startswith("self.") and ("width" in x.attr):
+            return 5
+        if isinstance(x, ast.Name):
+            return 7 if "width" in x.id else 3
+        return None
+    try:
+        v = teval(ex, {}, leaf)
+    except NotEvaluable as e:
+        return False, f"cannot be evaluated ({e})"
+    got = [int(z) for z in np.asarray(v).reshape(-1).tolist()] if hasattr(v, "shape") else v
+    if got != [0, 4, 8]:
+        return False, (f"is {got} for 3 batch elements and a step width of 4 (the width {sorted(widths)} the extension scores are shaped with); "
+                       f"the flattened (batch, width) state needs offsets (0, 4, 8) = stride * batch index")
     return True, ""
 
 
@@ -334,9 +350,20 @@ def finished_mass_on_eos(ctx, f, clause: str, floor: int = 1):
             else:
                 conj.append(strip_shape(x))
         flat(e)
+        def _col_sel(v_):
+            # the eos column: one_hot(eos, V), or `arange(V) == eos`
+            return any(isinstance(x, ast.Call) and u(x.func).endswith("one_hot") for x in ast.walk(v_)) or any(
+                isinstance(x, ast.Compare) and len(x.ops) == 1 and isinstance(x.ops[0], ast.Eq)
+                and any(isinstance(c_, ast.Call) and call_name(c_) == "torch.arange" for s2 in (x.left, x.comparators[0]) for c_ in ast.walk(s2))
+                and any("eos" in u(s2) for s2 in (x.left, x.comparators[0])) for x in ast.walk(v_))
+
         def _is_onehot(s_):
-            if any(isinstance(x, ast.Call) and u(x.func).endswith("one_hot") for x in ast.walk(s_)):
+            if _col_sel(s_):
                 return True
+            if isinstance(s_, ast.Name):
+                o2_ = inl.orig.get(id(s_), s_)
+                if any(d_.value is not None and _col_sel(d_.value) for d_ in rd.defs_of(o2_)):
+                    return True
             # a named one-hot vector, possibly with a placeholder definition on the branch where there is no eos
             if isinstance(s_, ast.Name):
                 o_ = inl.orig.get(id(s_), s_)
